@@ -36,7 +36,7 @@ def effReplicas (w : Workload) : Int :=
 /-- the `i`-th generated pod -/
 def podOf (w : Workload) (i : Nat) : Pod :=
   { ns := w.ns, name := w.name ++ "-" ++ toString (i + 1), labels := w.labels, ports := w.ports,
-    ownerKind := w.kind, ownerName := w.name, variant := variantOf w.labels, hostIP := "127.0.0.1" }
+    ownerKind := w.kind, ownerName := w.name, variant := variantOf w.labels w.ports, hostIP := "127.0.0.1" }
 
 theorem podsFromWorkload_eq (w : Workload) :
     podsFromWorkload w = if effReplicas w > 1 then [podOf w 0, podOf w 1] else [podOf w 0] := by
@@ -94,7 +94,7 @@ theorem podOf_mem_1 (w : Workload) (h : effReplicas w > 1) : podOf w 1 ∈ podsF
 the owner; it is a real pod (`fake = false`, so not a representative peer) -/
 theorem podsFromWorkload_fields {w : Workload} {p : Pod} (h : p ∈ podsFromWorkload w) :
     p.ns = w.ns ∧ p.labels = w.labels ∧ p.ports = w.ports ∧ p.ownerKind = w.kind ∧
-      p.ownerName = w.name ∧ p.variant = variantOf w.labels ∧ p.fake = false ∧
+      p.ownerName = w.name ∧ p.variant = variantOf w.labels w.ports ∧ p.fake = false ∧
       p.isRepresentative = false := by
   rcases mem_podsFromWorkload h with rfl | rfl <;>
     exact ⟨rfl, rfl, rfl, rfl, rfl, rfl, rfl, rfl⟩
